@@ -469,40 +469,17 @@ def nontrivial(c, ob):
     return True
 
 
+CHECK_FN = 'check_case'
+BAD_TERM = '(CNorm [Up] [])'
+
+
+def stat_key(c, ob):
+    err = 'err' in ob or ('res' in ob and 'err' in ob['res'])
+    return c['kind'] + ('/error' if err else '/ok')
+
+
 def run(cases, tier='quick', seed=0):
-    rng = random.Random(seed + 1)
-    obs, orc, terms, stats = [], [], [], {}
-    seen = set()
-    nontriv = 0
-    for i, c in enumerate(cases):
-        try:
-            ob = run_impl(c)
-        except Exception as e:  # implementation crashed where the model has an answer
-            ob = {'err': 'EOther:' + type(e).__name__, 'crash': repr(e)}
-        obs.append(ob)
-        kind = c['kind']
-        st = stats.setdefault(kind, {'n': 0, 'errors': 0})
-        st['n'] += 1
-        if 'err' in ob or ('res' in ob and 'err' in ob['res']):
-            st['errors'] += 1
-        try:
-            for msg, sig in oracle(c, ob, rng):
-                orc.append((i, msg, sig))
-        except Exception as e:
-            orc.append((i, 'oracle crashed: %r' % e, 'oracle-crash'))
-        try:
-            t = render(c, ob)
-        except Exception as e:
-            t = '(CNorm [Up] [])'   # unrenderable observation: forces a disagreement
-            ob['render_error'] = repr(e)
-        terms.append(t)
-        if t not in seen and nontrivial(c, ob):
-            seen.add(t)
-            nontriv += 1
-    bad, err = common.coq_check_cases('C17', IMPORTS, 'check_case', terms)
-    return {'observations': obs, 'oracle': orc, 'corr_bad': bad, 'corr_error': err,
-            'stats': stats, 'nontrivial': nontriv,
-            'samples': [{'case': cases[i], 'impl': obs[i]} for i in range(min(4, len(cases)))]}
+    return common.generic_run(__import__('harness.c17', fromlist=['x']), cases, seed)
 
 
 def model_output(case, ob):
